@@ -58,15 +58,15 @@ func next(label string) uint64 {
 	return table[k]
 }
 
-func Symbolic() bool       { return false }
-func Int(l string) int     { return int(next(l)) }
-func Int64(l string) int64 { return int64(next(l)) }
-func Int32(l string) int32 { return int32(next(l)) }
+func Symbolic() bool         { return false }
+func Int(l string) int       { return int(next(l)) }
+func Int64(l string) int64   { return int64(next(l)) }
+func Int32(l string) int32   { return int32(next(l)) }
 func Uint64(l string) uint64 { return next(l) }
 func Uint32(l string) uint32 { return uint32(next(l)) }
 func Uint16(l string) uint16 { return uint16(next(l)) }
-func Byte(l string) byte   { return byte(next(l)) }
-func Bool(l string) bool   { return next(l) != 0 }
+func Byte(l string) byte     { return byte(next(l)) }
+func Bool(l string) bool     { return next(l) != 0 }
 
 // Bytes returns a fresh byte slice of length n with unconstrained content.
 func Bytes(label string, n int) []byte {
